@@ -347,6 +347,17 @@ func hookYield(kind int, key uint64) {
 		if key < maxTokens {
 			s.sleepUntil(s.firstSlot[key])
 		}
+	case verifhook.ResultSent:
+		// the window between the result being visible to the controller and
+		// the search goroutine releasing the running lock
+		s.record(kind, 0)
+		d := 500 + int64(s.costRng.Intn(30000))
+		if s.costRng.Intn(5) == 0 {
+			// the search goroutine is descheduled right after writing its result
+			d = 30000 + int64(s.costRng.Intn(3_000_000))
+		}
+		t := s.reserve(d)
+		s.sleepUntil(t)
 	case verifhook.BusyWait:
 		s.BusyWaiting = true
 		s.record(kind, 0)
